@@ -10,9 +10,14 @@
 (*   foreign point (secp256k1,  -> EncodeF(x) \o EncodeF(y) over the base   *)
 (*      BLS12-381 G1)              field, identity = (0, 0) with the flag   *)
 (*                                 2^LB added to the first limb             *)
+(*   accumulator (lhs, rhs)     -> MsmEncode(lhs) \o MsmEncode(rhs); an MSM  *)
+(*      over BLS12-381 G1          is its bases (foreign points), then its   *)
+(*                                 scalars (native), then the scalars of its *)
+(*                                 NAMED fixed bases in the byte-wise        *)
+(*                                 lexicographic order of the names          *)
 (* Decode is the partial inverse; an item is [ty, nbits, val].              *)
 (***************************************************************************)
-EXTENDS Curve
+EXTENDS Curve, FiniteSets
 
 Types == {"bit", "byte", "native", "secp_n", "secp_p", "bls_p", "big", "jub_point", "jub_scalar", "secp_point", "bls_point"}
 BaseField(ty) == IF ty = "secp_point" THEN "secp_p" ELSE "bls_p"
@@ -61,4 +66,22 @@ Decode(ty, nbits, e) ==
          IN IF ~(CanonF(ex, f) /\ CanonF(ey, f)) THEN None
             ELSE IF flag THEN (IF DecodeF(ex, f) = Zero /\ DecodeF(ey, f) = Zero THEN Inf ELSE None)
             ELSE Pt(DecodeF(ex, f), DecodeF(ey, f))
+
+\* ---- accumulators -----------------------------------------------------------
+\* names are byte strings; byte-wise lexicographic order (what a BTreeMap<String, _> iterates in)
+RECURSIVE LexLt(_, _)
+LexLt(a, b) == IF a = <<>> THEN b # <<>>
+               ELSE IF b = <<>> THEN FALSE
+               ELSE IF a[1] # b[1] THEN a[1] < b[1] ELSE LexLt(Tail(a), Tail(b))
+\* fixed: a sequence of [name, v] with pairwise different names
+DistinctNames(fixed) == \A i, j \in 1..Len(fixed) : fixed[i].name = fixed[j].name => i = j
+Rank(fixed, i) == Cardinality({j \in 1..Len(fixed) : LexLt(fixed[j].name, fixed[i].name)})
+SortedVals(fixed) == [r \in 1..Len(fixed) |-> fixed[CHOOSE i \in 1..Len(fixed) : Rank(fixed, i) = r - 1].v]
+AccPt(j) == [id |-> j.id, x |-> j.x, y |-> j.y]
+MsmTyped(m) == /\ Len(m.bases) = Len(m.scalars)
+               /\ \A i \in 1..Len(m.bases) : OnCurve(Bls12381G1, AccPt(m.bases[i]))
+               /\ \A i \in 1..Len(m.scalars) : Lt(m.scalars[i], Native)
+               /\ DistinctNames(m.fixed) /\ \A i \in 1..Len(m.fixed) : Lt(m.fixed[i].v, Native)
+MsmEncode(m) == Flat([i \in 1..Len(m.bases) |-> Encode("bls_point", 0, AccPt(m.bases[i]))]) \o m.scalars \o SortedVals(m.fixed)
+AccEncode(lhs, rhs) == MsmEncode(lhs) \o MsmEncode(rhs)
 =============================================================================
